@@ -132,6 +132,8 @@ def bounded_escape(ctx, b):
 def run(ctx):
     import props.C07_spans as SP
     SP.prove_span_balance(ctx)
+    import props.C03_lines as LN
+    LN.prove_cue_lines(ctx)
     ctx.bounded("escape_contracts", "xml.sax.saxutils.escape and WebVTTWriter._encode_illegal_characters on every string up to "
                 "length 5 (thorough: 6) over the metacharacter alphabets: no raw '<' (no '-->' for WebVTT), every '&' "
                 "starts one of the three entities, decoding gives the string back", lambda b: bounded_escape(ctx, b), exhaustive=True)
